@@ -41,10 +41,30 @@ CHECKS = {
    text="All sequences over push / pop / remove / find / len / is_empty / to_vec on a real OrderQueue (3 ids, re-push after removal allowed) up to the reported depth against a FIFO-with-removal model (result, content, len, is_empty, pop order of a final drain); text / JSON / from_vec / From<Vec> forms rebuilt in every new state; all lists of <= 3 orders in every permutation through the four constructors. The stale-ticket deviation is the open known finding KF2.",
    note="3 ids; known finding KF2 listed in KNOWN_FINDINGS.txt",
    tech="explicit-state BFS on the real OrderQueue vs FIFO reference model with a known-deviation variant"),
+ "C03": dict(engine="schedmc", cat="model_checking", ref="5 (C03), 3.3",
+   text="Every program of the enumerated families (all multisets of 2 and 3 one-operation threads over an 11-letter alphabet on five pre-loaded books, all pairs of two-operation threads; thorough adds 4 threads, 3x2 operations and the 2-thread programs without any bound) x every interleaving within the preemption bound is executed on the real level. At quiescence: aggregates = sums over the listing, the per-order equation supplied(+amend adjustments) = executed + cancelled + resting + discarded, and every ownership link reconstructed from the map events (pop..push of a match, remove..push of an amend, remove of a cancel) conserves quantity according to the matching rules.",
+   note="SC interleavings at the granularity of hooked operations; statistics atomics and id counter not scheduling points (write-only: sound); DashMap::iter atomic",
+   tech="stateless model checking of the implementation under a controlled coroutine scheduler, iterative preemption bounding, ownership-ledger oracle"),
+ "C08": dict(engine="schedmc", cat="model_checking", ref="5 (C08), 3.3",
+   text="The C03 programs and schedules followed by a draining match: it must execute exactly the displayed + replenishable quantity the quiescent listing promises, per order; nothing with displayed quantity may remain and the aggregates must describe what is left. Plus all 2-3 thread programs of push / pop / remove / find on the bare OrderQueue under every interleaving (no bound), followed by a sequential drain: orders handed out = orders handed in, each exactly once.",
+   note="as C03",
+   tech="stateless model checking under a controlled scheduler + drain reachability oracle; unbounded DFS for the queue programs"),
+ "C12": dict(engine="schedmc", cat="model_checking", ref="5 (C12), 3.3",
+   text="The C03 programs and schedules with a monitor that reads visible, hidden and count after every single scheduled step (and reader threads that snapshot the level): no figure may exceed everything the program ever supplies, in particular no wrapped value.",
+   note="as C03; the bound is program-wide (book + all adds + all amend targets)",
+   tech="stateless model checking under a controlled scheduler with a between-step invariant monitor"),
+ "C13": dict(engine="schedmc", cat="model_checking", ref="5 (C13), 3.3",
+   text="All programs with a cancel, price move or quantity amend racing matches, amends and cancels, every interleaving within the bound: a not-found answer is checked against the ownership ledger at the failing lookup (who holds the order, does it come back), a successful cancel against later map inserts and fills. Not-found while a matcher (KF4) or an amend (KF5) holds the order are the two open known findings; not-found while the order is in the map or held by anything else is a VIOLATION.",
+   note="as C03; call invocation time = the call's first shared-memory step",
+   tech="stateless model checking under a controlled scheduler, ledger-based linearizability predicate for acknowledgements"),
+ "C14": dict(engine="schedmc", cat="model_checking", ref="5 (C14)",
+   text="k in 2..4 threads x n in 1..3 calls of UuidGenerator::next on a shared generator, every interleaving of the counter step (no bound), three namespaces: ids distinct, equal as a set to the first k*n name-based ids computed independently, and reproduced by a fresh generator. Plus the transaction ids of all matches of 2-3 thread level programs sharing one generator, with the counter as a scheduling point.",
+   note="SC interleavings; uuid crate trusted for v5",
+   tech="stateless model checking under a controlled scheduler (unbounded DFS for the generator programs)"),
  "C15": dict(engine="seqmc", cat="model_checking", ref="5 (C15)",
-   text="Sequential half: all histories with positive quantities, statistics counters in the state key; after every transition the four counters must equal the events derived from the implementation's own return values.",
-   note="concurrent half is added by engine C; orders carry the level's price (the property's premise)",
-   tech="explicit-state BFS on the implementation, counters vs observed events"),
+   text="Sequential half: all histories with positive quantities, statistics counters in the state key; after every transition the four counters must equal the events derived from the implementation's own return values. Concurrent half: 2-3 thread programs with the eight statistics atomics as scheduling points, every interleaving within the bound, counters at quiescence vs the events the threads observed.",
+   note="orders carry the level's price (the property's premise); SC interleavings",
+   tech="explicit-state BFS on the implementation + stateless model checking under a controlled scheduler, counters vs observed events"),
 }
 
 m = {
